@@ -24,6 +24,8 @@ static json g_bodies;                         // task number (string) -> list of
 static std::atomic<int> g_foreign_left{0};
 static int g_exit_task = 0;
 static std::atomic<int> g_internal{0};
+static std::atomic<bool> g_in_drain{false};       // the loop thread is inside the shutdown drain (which the code runs under its lock)
+static std::atomic<int> g_submits_done{0};      // cross-thread submissions that have returned
 
 static bool is_main() { return std::this_thread::get_id() == g_main_tid; }
 static const char *role() { return is_main() ? "M" : "F"; }
@@ -31,6 +33,8 @@ static const char *role() { return is_main() ? "M" : "F"; }
 static void hook(const char *name, long a, long b) {
     if (strncmp(name, "loop.", 5)) return;
     const char *n = name + 5;
+    if (!strcmp(n, "after.enter") || !strcmp(n, "destroy.cleanup")) g_in_drain = true;
+    else if (!strcmp(n, "after.closed") || !strcmp(n, "start.enter")) g_in_drain = false;
     S().arrive(name, role(), b);
     uint64_t seq = next_seq();
     std::string e;
@@ -80,12 +84,23 @@ static void do_op(const json &op) {
         if (ms > 0) g_loop->exitLoop(std::chrono::milliseconds(ms)); else g_loop->exitLoop();
     }
     else if (o == "sleep") std::this_thread::sleep_for(std::chrono::microseconds(op.value("us", 50)));
+    else if (o == "await_submit") {
+        // a task (on the loop thread) waits until one more cross-thread submission has RETURNED (or no submitter is left): runInLoop() from
+        // another thread must not be blocked by whatever the loop thread is executing
+        // (not during the shutdown drain: the code runs that under its lock, by design cross-thread submitters wait until it is over)
+        int c0 = g_submits_done.load(); long long t0 = now_ms();
+        while (!g_in_drain.load() && g_submits_done.load() == c0 && g_foreign_left.load() > 0) {
+            if (now_ms() - t0 > 3000) vh::fault("blocked", "a cross-thread runInLoop() did not return for 3 s while a task was executing");    // ends the run
+            std::this_thread::sleep_for(std::chrono::microseconds(50));
+        }
+    }
 }
 static void foreign_thread(json ops, std::string name) {
     tl_name = strdup(name.c_str());
     for (auto &op : ops) {
         if (op.contains("us")) std::this_thread::sleep_for(std::chrono::microseconds(op["us"].get<int>()));
         do_op(op);
+        g_submits_done.fetch_add(1);
     }
     if (g_foreign_left.fetch_sub(1) == 1) submit("ril", g_exit_task);      // the last foreign thread asks the loop to exit
 }
@@ -135,11 +150,26 @@ static json random_execution(vh::Rng &rng, uint64_t seed) {
             int r = (int)rng.below(100);
             if (r < 35 && depth < 2) { int k = ++next_task; known.push_back(k); b.push_back({{"o", rng.chance(50) ? "next" : rng.chance(50) ? "ril" : "run"}, {"t", k}}); tasks[std::to_string(k)] = json::array(); }
             else if (r < 70 && !known.empty()) b.push_back({{"o", "cancel"}, {"t", known[rng.below(known.size())]}});
-            else if (r < 80) b.push_back({{"o", "exit"}, {"ms", rng.chance(30) ? (int)rng.range(1, 4) : 0}});
+            else if (r < 78) b.push_back({{"o", "exit"}, {"ms", rng.chance(30) ? (int)rng.range(1, 4) : 0}});
+            else if (r < 84) b.push_back({{"o", "await_submit"}});
             else b.push_back({{"o", "sleep"}, {"us", (int)rng.range(1, 200)}});
         }
         return b;
     };
+    if (rng.chance(10)) {
+        // a chain of tasks, each submitting the next, deeper than the 100 generations one shutdown drain works through: whatever the drain leaves
+        // is still pending and runs when the loop runs again or is destroyed - nothing may be dropped
+        int L = (int)rng.range(101, 140); std::string kind = rng.chance(50) ? "next" : "ril";
+        json round; json pre = json::array();
+        pre.push_back({{"o", kind}, {"t", 1}});
+        for (int k = 1; k <= L; ++k) tasks[std::to_string(k)] = k < L ? json::array({{{"o", kind}, {"t", k + 1}}}) : json::array();
+        next_task = L;
+        round["pre"] = pre; round["foreign"] = json::array(); round["exit_task"] = ++next_task;
+        if (rng.chance(50)) round["mode"] = "once";
+        rounds.push_back(round);
+        x["rounds"] = rounds; x["tasks"] = tasks;
+        return x;
+    }
     for (int r = 0; r < nrounds; ++r) {
         json round; json pre = json::array();
         int npre = (int)rng.range(0, 4);
